@@ -311,6 +311,19 @@ mod tmap {
                 }
             }
         }
+        // equality is about content: the same entries inserted in another order compare equal
+        let mut pairs: Vec<(String, Value)> = t.iter().map(|(k, v)| (k.clone(), v.clone())).collect();
+        pairs.sort_by(|a, b| b.0.cmp(&a.0));
+        let mut t2 = toml::Table::new();
+        for (k, v) in pairs {
+            t2.insert(k, v);
+        }
+        out.push_str(&format!("eq={},{};", t == t2, Value::Table(t.clone()) == Value::Table(t2.clone())));
+        let mut nest_a = toml::Table::new();
+        nest_a.insert("x".into(), Value::Array(vec![Value::Table(t.clone())]));
+        let mut nest_b = toml::Table::new();
+        nest_b.insert("x".into(), Value::Array(vec![Value::Table(t2)]));
+        out.push_str(&format!("nested-eq={};", nest_a == nest_b));
         let mut content: Vec<String> = t.iter().map(|(k, v)| format!("{k}={v:?}")).collect();
         let order: Vec<&str> = t.keys().map(|k| k.as_str()).collect();
         let order = order.join(",");
